@@ -416,6 +416,100 @@ def descCallsObj (data : Bytes) : Res (List OCall × Nat) := descRead (data.leng
 /-- `Descriptor{Type: FieldTypeJSONArray}.read(out, data)`. -/
 def descCallsArr (data : Bytes) : Res (List OCall × Nat) := descRead (data.length + 1) false data
 
+/-! ### specification functions (what the theorems of `Props/C16.lean` say) -/
+
+mutual
+/-- What a value reads back as when it was encoded as an array element or as
+the value of an object entry (a *nested* position): scalars, strings, numbers
+and nil are unchanged; a nil `[]any` comes back as an empty non-nil `[]any`
+(`make([]any, 0)`); a nil `map[string]any` comes back as an empty non-nil map
+(`make(map[string]any, 0)`); non-empty containers keep their entries (in
+order), each normalised the same way. -/
+def jnorm : JVal → JVal
+  | .null => .null
+  | .str s => .str s
+  | .int i => .int i
+  | .float b => .float b
+  | .bool b => .bool b
+  | .num t => .num t
+  | .arr xs => .arr (some (jnormArr xs))
+  | .obj m => .obj (some (jnormMap m))
+def jnormArr : Option (List JVal) → List JVal
+  | none => []
+  | some xs => jnormList xs
+def jnormList : List JVal → List JVal
+  | [] => []
+  | v :: r => jnorm v :: jnormList r
+def jnormMap : Option (List (Bytes × JVal)) → List (Bytes × JVal)
+  | none => []
+  | some kvs => jnormKvs kvs
+def jnormKvs : List (Bytes × JVal) → List (Bytes × JVal)
+  | [] => []
+  | (k, v) :: r => (k, jnorm v) :: jnormKvs r
+end
+
+/-- What a value marshalled at top level (or as a struct field) reads back as
+in a fresh target: a nil map is omitted and stays nil, an empty non-nil map is
+encoded (count 0) and comes back empty non-nil; a nil **or empty** `[]any` is
+omitted and the target stays nil; everything nested is `jnorm`alised. -/
+def jnormTop : JVal → JVal
+  | .obj none => .obj none
+  | .obj (some kvs) => .obj (some (jnormKvs kvs))
+  | .arr none => .arr none
+  | .arr (some []) => .arr none
+  | .arr (some (x :: xs)) => .arr (some (jnormList (x :: xs)))
+  | v => v
+
+mutual
+/-- The Outputter calls that render a value: nil is `Raw("null")`, a
+`json.Number` is `Raw(token)`, containers are bracketed, nil containers render
+like empty ones. -/
+def toCalls : JVal → List OCall
+  | .null => [.raw nullTok]
+  | .str s => [.str s]
+  | .int i => [.int64 i]
+  | .float b => [.f64 b]
+  | .bool b => [.bool b]
+  | .num t => [.raw t]
+  | .arr xs => .startArr :: arrCalls xs ++ [.endArr]
+  | .obj m => .startObj :: mapCalls m ++ [.endObj]
+def arrCalls : Option (List JVal) → List OCall
+  | none => []
+  | some xs => itemsCalls xs
+def itemsCalls : List JVal → List OCall
+  | [] => []
+  | v :: r => toCalls v ++ itemsCalls r
+def mapCalls : Option (List (Bytes × JVal)) → List OCall
+  | none => []
+  | some kvs => kvsCalls kvs
+def kvsCalls : List (Bytes × JVal) → List OCall
+  | [] => []
+  | (k, v) :: r => (.name k :: toCalls v) ++ kvsCalls r
+end
+
+mutual
+/-- Well-formed JSON-model values: ints are Go `int` (64-bit), float bit
+patterns are 64-bit, the keys of every object are pairwise distinct. -/
+def WF : JVal → Prop
+  | .int i => -(2 ^ 63 : Int) ≤ i ∧ i < (2 ^ 63 : Int)
+  | .float b => b < 2 ^ 64
+  | .arr xs => WFArr xs
+  | .obj m => WFMap m
+  | _ => True
+def WFArr : Option (List JVal) → Prop
+  | none => True
+  | some xs => WFList xs
+def WFList : List JVal → Prop
+  | [] => True
+  | v :: r => WF v ∧ WFList r
+def WFMap : Option (List (Bytes × JVal)) → Prop
+  | none => True
+  | some kvs => WFKvs kvs
+def WFKvs : List (Bytes × JVal) → Prop
+  | [] => True
+  | (k, v) :: r => WF v ∧ (∀ p ∈ r, p.1 ≠ k) ∧ WFKvs r
+end
+
 /-! ### entry points for differential testing -/
 
 /-- `plenc.Marshal(nil, v)` with the JSON codecs registered: `Omit → no bytes`.
